@@ -19,10 +19,12 @@ RULE = (
 )
 ASSUMPTIONS = ["T is computed in the very frame that calls extract, so T ends with the caller and contains none of stackscope's frames", "3.12 only (greenlet); without greenlets the same triples run on the plain thread stack (3.9 leg)"]
 REAL_VS_STUB = {"real": ["unwrap_stackslice, get_true_caller, extract_since, extract_until", "greenlet"], "stub": ["director-driven greenlet tree", "documented slicing rule as oracle"]}
-RARE_PROBES = ["offstack_anchor", "frame_limit", "int_limit", "inside_nested_greenlet"]
+RARE_PROBES = ["offstack_anchor", "frame_limit", "int_limit", "inside_nested_greenlet", "other_thread_anchor", "other_thread_running_generator"]
 LEGS = [
     {"name": "slice312", "python": "3.12", "quick": 8000, "thorough": 200000, "quick_s": 45, "thorough_s": 400, "run_timeout": 60, "params": {"glets": True}},
     {"name": "slice39", "python": "3.9", "quick": 6000, "thorough": 100000, "quick_s": 30, "thorough_s": 300, "run_timeout": 60, "params": {"glets": False}},
+    {"name": "other312", "python": "3.12", "quick": 1500, "thorough": 40000, "quick_s": 30, "thorough_s": 300, "run_timeout": 60, "params": {"other": True}},
+    {"name": "other310", "python": "3.10", "quick": 1000, "thorough": 30000, "quick_s": 25, "thorough_s": 250, "run_timeout": 60, "params": {"other": True}},
 ]
 
 
@@ -187,11 +189,129 @@ def plain_levels(ctx, t, depth, kinds):
     return plain_levels(ctx, t, depth - 1, kinds)
 
 
+def other_thread(ctx):
+    """The documented second use of StackSlice: `outer` (and `inner`) are frames that are running on
+    ANOTHER thread, which stays parked in a direct C call (lock.acquire) for the whole run, so its
+    stack is one fixed list T. The inspecting thread is the only one that moves: no real scheduling
+    decision is left open. Oracle = the same documented slicing rule as on the own stack."""
+    import threading
+    import time
+
+    import stackscope
+    from stackscope import StackSlice
+
+    t = ctx.tape
+    depth = 1 + t.choose(7)
+    kinds = [t.choose(2) for _ in range(3)]
+    ctx.case["depth"] = depth
+    ctx.case["kinds"] = kinds
+    gate = threading.Lock()
+    gate.acquire()
+    flag = []
+    gens = []
+
+    def park():
+        flag.append(sys._getframe(0))
+        gate.acquire()
+
+    def levels(d):
+        if d <= 0:
+            return park()
+        if kinds[d % len(kinds)] == 1:
+            def g():
+                levels(d - 1)
+                yield 1
+
+            it = g()
+            gens.append(it)
+            for _ in it:
+                pass
+            return None
+        return levels(d - 1)
+
+    def target():
+        levels(depth)
+
+    th = threading.Thread(target=target, name="vsim-c04-other", daemon=True)
+    th.start()
+    try:
+        spins = 0
+        while not flag:
+            time.sleep(0.0002)
+            spins += 1
+            if spins > 50000:
+                raise RuntimeError("harness: parked thread never arrived")
+        inner_most = sys._current_frames()[th.ident]
+        if inner_most is not flag[0]:
+            raise RuntimeError("harness: parked thread is not in park()")
+        T = []
+        fr = inner_most
+        while fr is not None:
+            T.append(fr)
+            fr = fr.f_back
+        T.reverse()
+        first = [k for k, f in enumerate(T) if f.f_code.co_name == "target"][0]
+        T = T[first:]
+        n = len(T)
+        for _ in range(8):
+            api = t.choose(4)  # 0 StackSlice(outer[,limit]), 1 StackSlice(outer, inner, limit), 2 extract_since, 3 extract(running generator)
+            oi = t.choose(n)
+            ii = t.choose(n)
+            lim = t.choose(n + 3)
+            limit = None if lim == 0 else lim
+            with warnings.catch_warnings():
+                warnings.simplefilter("ignore")
+                if api == 0:
+                    st = stackscope.extract(StackSlice(outer=T[oi], limit=limit), with_contexts=False)
+                    exp = T[oi:]
+                    if limit is not None:
+                        exp = exp[:limit]
+                    desc = "StackSlice(outer=#%d on another thread, limit=%r)" % (oi, limit)
+                elif api == 1:
+                    if oi > ii:
+                        oi, ii = ii, oi
+                    st = stackscope.extract(StackSlice(outer=T[oi], inner=T[ii], limit=limit), with_contexts=False)
+                    exp = T[oi : ii + 1]
+                    if limit is not None and len(exp) > limit:
+                        exp = exp[-limit:]
+                    desc = "StackSlice(outer=#%d, inner=#%d on another thread, limit=%r)" % (oi, ii, limit)
+                elif api == 2:
+                    st = stackscope.extract_since(T[oi], with_contexts=False)
+                    exp = T[oi:]
+                    desc = "extract_since(#%d on another thread)" % oi
+                else:
+                    if not gens:
+                        continue
+                    it = gens[t.choose(len(gens))]
+                    st = stackscope.extract(it, with_contexts=False)
+                    exp = T[T.index(it.gi_frame) :]
+                    desc = "extract(generator running on another thread)"
+                    ctx.stat("other_thread_running_generator")
+            got = pf(st)
+            ctx.stat("other_thread_anchor")
+            ctx.cover(("c04o", api, cls(oi, n, T[oi]), cls(ii, n, T[ii]), "none" if limit is None else ("ge" if limit >= n else "lt")))
+            ctx.log("slice", desc, len(got), len(exp))
+            if st.error is not None:
+                raise Violation("c04_error", "%s on a stack of %d frames: error %r" % (desc, n, st.error), {"call": desc})
+            if len(got) != len(exp) or any(a is not b for a, b in zip(got, exp)):
+                raise Violation(
+                    "c04_wrong_slice",
+                    "%s on the stack %r returned %r, the documented slice is %r" % (desc, names(T), names(got), names(exp)),
+                    {"call": desc, "stack": names(T)},
+                )
+        ctx.sample = {"depth": depth, "generator_levels": kinds, "other_thread": True}
+    finally:
+        gate.release()
+        th.join(5)
+
+
 def run(ctx):
     was = gc.isenabled()
     gc.disable()
     try:
-        if ctx.params.get("glets"):
+        if ctx.params.get("other"):
+            other_thread(ctx)
+        elif ctx.params.get("glets"):
             from ..world import glets
 
             gw = glets.GWorld(ctx.tape, ctx, lambda *a: None, on_slices)
